@@ -11,6 +11,10 @@
 //	returns     returns from the enclosing function (e.g. an error naming the current element)
 //	sorted      every accumulated slice is passed to sort.* / slices.Sort* later in the same function
 //
+// The same is done for every call that serialises a protobuf message (proto.Marshal, proto.MarshalOptions{..}.
+// Marshal/MarshalAppend/MarshalState, prototext / protojson Marshal and Format): a binary marshal whose bytes can
+// reach the output must set Deterministic: true (map entries are otherwise written in Go's random map order).
+//
 // and compared with an explicit allow-list of the sites present today, each with the reason why it is harmless.
 // A site that is not on the list and is not pure, or a listed site whose classification changed (the sort was
 // removed, say), gets a non-ok status in the manifest: bin/check reports a broken tie.
@@ -68,6 +72,25 @@ var allow = map[string]allowed{
 	"cmd/protoc-gen-go/internal_gengo.stripSourceRetentionFieldsFromMessage|callback m2.Range": {
 		"pure",
 		"clears the populated fields whose options say retention = SOURCE; clearing is order-independent"},
+}
+
+// marshal call sites: key -> expected classification and why the site is harmless.
+var allowMarshal = map[string]allowed{
+	"cmd/protoc-gen-go/internal_gengo.genFileDescriptor|proto.MarshalOptions{…}.Marshal": {
+		"binary deterministic arg=*google.golang.org/protobuf/types/descriptorpb.FileDescriptorProto",
+		"the raw descriptor embedded in the generated file: Deterministic orders the map entries of custom options whose message types have map fields " +
+			"(descriptor.proto itself has none); anything else than `deterministic` here breaks C40"},
+	"compiler/protogen.run|proto.Marshal": {
+		"binary default-options arg=*google.golang.org/protobuf/types/pluginpb.CodeGeneratorResponse",
+		"the response itself: CodeGeneratorResponse (and File, GeneratedCodeInfo) has no map fields and no extension ranges, and is built field by field " +
+			"without unknown fields, so non-deterministic marshalling has nothing to reorder"},
+	"compiler/protogen.Options.New|proto.Marshal": {
+		"binary default-options arg=google.golang.org/protobuf/reflect/protoreflect.ProtoMessage",
+		"bytes are re-parsed into the same FileDescriptorProto on the next line (to resolve custom options against the request's own extensions) and never emitted"},
+	"compiler/protogen.GeneratedFile.metaFile|prototext.Marshal": {
+		"text arg=*google.golang.org/protobuf/types/descriptorpb.GeneratedCodeInfo",
+		"the .meta file of annotate_code: GeneratedCodeInfo has no map fields; prototext orders map entries by key anyway and its whitespace " +
+			"variation (detrand) is a function of the binary, not of the run"},
 }
 
 // selectors of nondeterministic inputs; os.Stdin/Stdout/Stderr/Exit/Args are the plugin protocol itself
@@ -204,7 +227,36 @@ func main() {
 					}
 					man["site:"+k] = e
 				}
+				for _, site := range s.marshalSites(p, fd) {
+					k := site.key
+					for n := 2; seen["m:"+k]; n++ {
+						k = fmt.Sprintf("%s#%d", site.key, n)
+					}
+					seen["m:"+k] = true
+					e := entry{Value: site.class, Where: site.where}
+					a, listed := allowMarshal[k]
+					switch {
+					case listed && a.class == site.class:
+						e.Status, e.Why = "ok", a.why
+					case listed:
+						e.Status = fmt.Sprintf("classification of an allow-listed Marshal call changed: expected [%s], found [%s] (%s)", a.class, site.class, site.where)
+					case strings.HasPrefix(site.class, "binary deterministic") || strings.HasPrefix(site.class, "text"):
+						e.Status, e.Why = "ok", "new site; deterministic binary marshal / key-ordered text marshal"
+					default:
+						e.Status = fmt.Sprintf("new protobuf Marshal call without Deterministic: true in the generator: [%s] at %s", site.class, site.where)
+					}
+					man["marshal:"+k] = e
+				}
 			}
+		}
+	}
+	for k, a := range allowMarshal {
+		if !seen["m:"+k] {
+			st := "ok"
+			if strings.Contains(k, "genFileDescriptor") {
+				st = "the deterministic Marshal call of genFileDescriptor was not found (shape changed; cannot confirm that the embedded raw descriptor is marshalled deterministically)"
+			}
+			man["marshal:"+k] = entry{Status: st, Value: "gone", Why: "allow-listed Marshal call no longer exists (was: " + a.class + ")"}
 		}
 	}
 	for k, a := range allow {
@@ -418,6 +470,84 @@ func (s *scanner) sites(p *pkgInfo, fd *ast.FuncDecl) []site {
 				}
 			}
 		}
+		return true
+	})
+	return out
+}
+
+// marshalSites lists the calls in fd that serialise a protobuf message.
+func (s *scanner) marshalSites(p *pkgInfo, fd *ast.FuncDecl) []site {
+	var out []site
+	pbPkgs := map[string]string{module + "/proto": "binary", module + "/encoding/prototext": "text", module + "/encoding/protojson": "text"}
+	ast.Inspect(fd.Body, func(n ast.Node) bool {
+		call, ok := n.(*ast.CallExpr)
+		if !ok {
+			return true
+		}
+		fn, ok := s.callee(p, call).(*types.Func)
+		if !ok || fn.Pkg() == nil {
+			return true
+		}
+		kind, ok := pbPkgs[fn.Pkg().Path()]
+		if !ok {
+			return true
+		}
+		switch fn.Name() {
+		case "Marshal", "MarshalAppend", "MarshalState", "Format":
+		default:
+			return true
+		}
+		class := kind
+		sig := fn.Type().(*types.Signature)
+		if kind == "binary" {
+			switch {
+			case sig.Recv() == nil:
+				class += " default-options"
+			default:
+				sel, _ := call.Fun.(*ast.SelectorExpr)
+				lit, isLit := ast.Expr(nil), false
+				if sel != nil {
+					lit = sel.X
+					for {
+						if pe, ok := lit.(*ast.ParenExpr); ok {
+							lit = pe.X
+							continue
+						}
+						break
+					}
+					_, isLit = lit.(*ast.CompositeLit)
+				}
+				if !isLit {
+					class += " options-not-a-literal"
+					break
+				}
+				det := false
+				for _, el := range lit.(*ast.CompositeLit).Elts {
+					if kv, ok := el.(*ast.KeyValueExpr); ok {
+						if id, ok := kv.Key.(*ast.Ident); ok && id.Name == "Deterministic" {
+							if tv, ok := p.info.Types[kv.Value]; ok && tv.Value != nil && tv.Value.String() == "true" {
+								det = true
+							}
+						}
+					}
+				}
+				if det {
+					class += " deterministic"
+				} else {
+					class += " options-without-Deterministic"
+				}
+			}
+		}
+		// the message argument: last argument for Marshal/Format, second for MarshalAppend
+		if len(call.Args) > 0 {
+			arg := call.Args[len(call.Args)-1]
+			if tv, ok := p.info.Types[arg]; ok && tv.Type != nil {
+				class += " arg=" + tv.Type.String()
+			}
+		}
+		pp := s.fset.Position(call.Pos())
+		rel, _ := filepath.Rel(s.repo, pp.Filename)
+		out = append(out, site{key: fmt.Sprintf("%s.%s|%s", p.dir, funcName(fd), types.ExprString(call.Fun)), class: class, where: fmt.Sprintf("%s:%d", rel, pp.Line)})
 		return true
 	})
 	return out
